@@ -185,3 +185,34 @@ pub fn verif_btreeset_last(s: &BTreeSet<usize>) -> (r: Option<usize>)
 pub fn verif_vec_zeros(n: usize) -> (r: Vec<u64>)
     ensures r@.len() == n, forall |i: int| 0 <= i < n ==> r@[i] == 0
 { unimplemented!() }
+
+/// petgraph: node indices of a `DiGraph` are `u32` (`add_node` panics when the index space is exhausted),
+/// same fact as in the contract of `node_count`, usable in proofs.
+#[verifier::external_body]
+pub proof fn axiom_digraph_node_bound<N, E>(g: DiGraph<N, E>)
+    ensures g.node_count_spec() <= u32::MAX
+{ unimplemented!() }
+
+/// The result of `verif_positions_in_key_order`, as a predicate: `keys` are the distinct entries of `nodes` in
+/// ascending order, `r[j]` is the LAST position of `keys[j]` in `nodes`.
+pub open spec fn positions_in_key_order(nodes: Seq<NodeIndex>, keys: Seq<NodeIndex>, r: Seq<usize>) -> bool {
+    &&& keys.len() == r.len()
+    &&& forall |i: int, j: int| 0 <= i < j < keys.len() ==> (#[trigger] keys[i]).i < (#[trigger] keys[j]).i
+    &&& forall |i: int| 0 <= i < nodes.len() ==> exists |j: int| 0 <= j < keys.len() && #[trigger] keys[j] == #[trigger] nodes[i]
+    &&& forall |j: int| 0 <= j < keys.len() ==> (#[trigger] r[j]) < nodes.len() && nodes[r[j] as int] == keys[j]
+            && forall |i: int| r[j] < i < nodes.len() ==> #[trigger] nodes[i] != keys[j]
+}
+
+/// R9 target for the block
+///     let mut node_to_index = BTreeMap::new();
+///     for (i, node_index) in NODES.iter().enumerate() { node_to_index.insert(node_index, i); }
+///     let node_priority_list: Vec<usize> = node_to_index.values().copied().collect();
+/// (`.iter().enumerate()` and `.values().copied().collect()` are adapter chains Verus rejects).
+/// std: `enumerate` pairs each element with its position; `BTreeMap::insert` "If the map did have this key
+/// present, the value is updated"; keys `&NodeIndex` compare by the derived `Ord` of the wrapped integer;
+/// `BTreeMap::values` "Gets an iterator over the values of the map, in order by key": the result lists, for the
+/// distinct nodes in ascending order, the last position of the node in NODES.
+#[verifier::external_body]
+pub fn verif_positions_in_key_order(nodes: &Vec<NodeIndex>) -> (r: Vec<usize>)
+    ensures exists |keys: Seq<NodeIndex>| positions_in_key_order(nodes@, keys, r@)
+{ unimplemented!() }
